@@ -124,7 +124,7 @@ def app_run(configfile, outbase, startdate='2022-04-21', duration=1000., seed=1,
 
 # ---------------------------------------------------------------------------------------------------------------------------------------
 # Photon lists (the `xpphotonlist` flavour of the simulation: `rvs_photon_list` + `xPhotonList.write_fits`), with a synthetic GTI list
-def photon_list(roi_model, outfile, du_id=1, seed=1, gtis=None, duration=1000., argv=()):
+def photon_list(roi_model, outfile, du_id=1, seed=1, gtis=None, duration=1000., argv=(), irf_set=None):
     """one detector unit of the xpphotonlist loop; returns (outfile, kwargs)"""
     from ixpeobssim.bin.xpphotonlist import PARSER
     from ixpeobssim.evt.gti import xGTIList
@@ -136,7 +136,7 @@ def photon_list(roi_model, outfile, du_id=1, seed=1, gtis=None, duration=1000., 
     gl = [(start + a, start + b) for a, b in (gtis or [(0., duration)])]
     kwargs.update(start_met=start, stop_met=stop, scdata=False, gti_list=xGTIList(start, stop, *gl), outfile=outfile)
     numpy.random.seed(seed + du_id - 1)
-    irf_set = load_irf_set(kwargs['irfname'], du_id)
+    irf_set = irf_set if irf_set is not None else load_irf_set(kwargs['irfname'], du_id)
     pl = roi_model.rvs_photon_list(irf_set, **kwargs)
     pl.write_fits('verif', roi_model, irf_set, **kwargs)
     return outfile, kwargs
